@@ -58,6 +58,7 @@ const (
 	quiesceWindow    = 20 * time.Second // documented: reloadFailureQuiesce = Timeout(10s) + 10s
 	advanceStep      = 21 * time.Second
 	probeLatency     = 40 * time.Millisecond
+	slowMs           = 1500 // second probe latency: beyond 40ms + the 1s recovery penalty
 	big              = 1 << 20
 )
 
@@ -82,6 +83,15 @@ type event struct {
 	node int
 	typ  int
 	k    int // repeat count; for evReload: the fixed answer of every fastrand.Intn during the reload
+}
+
+// latency of a probe-ok event: k<=1 is the default 40ms, otherwise k milliseconds (a slow sample: far enough from the
+// default that the 1s recovery penalty and any tolerance are exceeded in both directions)
+func (e event) latency() time.Duration {
+	if e.k > 1 {
+		return time.Duration(e.k) * time.Millisecond
+	}
+	return probeLatency
 }
 
 type groupSpec struct {
@@ -113,7 +123,12 @@ func (c *cfg) addNodeEvents(node int, t int, kinds map[evKind][]int) {
 		for _, rep := range ks {
 			c.events = append(c.events, event{kind: k, node: node, typ: t, k: rep})
 			n := fmt.Sprintf("%c.%s.%s", 'a'+node, typeShort[t], names[k])
-			if rep > 1 || len(ks) > 1 {
+			if k == evPOK {
+				// for probe ok the parameter is the latency in ms (1 = the default 40ms)
+				if rep > 1 {
+					n += fmt.Sprintf("%dms", rep)
+				}
+			} else if rep > 1 || len(ks) > 1 {
 				n += fmt.Sprintf("x%d", rep)
 			}
 			c.evNames = append(c.evNames, n)
@@ -505,7 +520,7 @@ func (x *runner) exec(e event) {
 	what := x.evName
 	switch e.kind {
 	case evPOK:
-		d.VerifProbe(nt, probeLatency, true, nil)
+		d.VerifProbe(nt, e.latency(), true, nil)
 		exp := x.blankExp()
 		exp[e.node][e.typ] = expAlive
 		x.success(e.node, e.typ)
@@ -769,7 +784,7 @@ func makeScenario(c *cfg) *dialerh.Scenario {
 		for _, ei := range hist {
 			switch e := c.events[ei]; e.kind {
 			case evPOK:
-				horizon += probeLatency
+				horizon += e.latency()
 			case evAdv:
 				horizon += advanceStep
 			}
@@ -852,7 +867,7 @@ func scenarios(thorough bool) []*dialerh.Scenario {
 			thrDepth = pick(4, 5) // twelve events, two of them 49/50 calls long
 		}
 		c := &cfg{name: "thr/" + typeShort[t], addrs: []string{"addr-x"}, groups: oneNode, depth: thrDepth}
-		m := map[evKind][]int{evPOK: nil, evPFail: probeK(t), evTFail: trafK(t), evFFail: nil, evTOK: nil, evIgn: nil}
+		m := map[evKind][]int{evPOK: {1, slowMs}, evPFail: probeK(t), evTFail: trafK(t), evFFail: nil, evTOK: nil, evIgn: nil}
 		if !isTCP(t) {
 			m[evXFail] = []int{1, 3}
 		}
@@ -869,7 +884,7 @@ func scenarios(thorough bool) []*dialerh.Scenario {
 		out = append(out, makeScenario(c))
 		// rel: snapshot -> restore -> floor against deaths and revivals
 		c = &cfg{name: "rel/" + typeShort[t], addrs: []string{"addr-x"}, groups: oneNode, depth: deep}
-		c.addNodeEvents(0, t, map[evKind][]int{evPOK: nil, evPFail: {thrProbe(t)}, evFFail: nil, evTOK: nil})
+		c.addNodeEvents(0, t, map[evKind][]int{evPOK: {1, slowMs}, evPFail: {thrProbe(t)}, evFFail: nil, evTOK: nil})
 		c.addGlobal(evReload, evAdv, evBegin, evEnd)
 		out = append(out, makeScenario(c))
 	}
